@@ -8,8 +8,9 @@
 
 /*
   Print a single token of a gensquashfs pack file. If it contains anything
-  that the parser treats specially (separators, quotes, the escape character)
-  or is empty, wrap it in quotes and escape '"' and '\\'.
+  that the parser treats specially (separators, quotes, the escape character,
+  a carriage return that would be taken for part of the line ending) or is
+  empty, wrap it in quotes and escape '"' and '\\'.
  */
 static void print_token(const char *prefix, const char *str)
 {
@@ -23,7 +24,7 @@ static void print_token(const char *prefix, const char *str)
 	}
 
 	for (i = 0; i < 2 && !quote; ++i) {
-		if (parts[i] != NULL && strpbrk(parts[i], " \t\"\\") != NULL)
+		if (parts[i] != NULL && strpbrk(parts[i], " \t\r\"\\") != NULL)
 			quote = true;
 	}
 
